@@ -267,3 +267,19 @@ Definition guarded_atom (g f : string) (z : Z) (c : cond) : bool :=
   end.
 Definition guarded_bound (R : rules) (g f : string) (z : Z) : bool :=
   existsb (fun lc => guarded_atom g f z (snd lc)) R.
+
+(* a loop `for _, entry := range batch.Entries { … }` whose body leaves the FUNCTION with `return nil`
+   when X holds of the entry: the entries after the first such entry are not inspected.  "Don't know"
+   counts as leaving (fewer inspected entries: still a necessary condition of the Go function). *)
+Definition may_exit (X : cond) (r : recval) : bool :=
+  match eval r X with Some false => false | _ => true end.
+
+Fixpoint inspected (X : cond) (es : list recval) : list recval :=
+  match es with
+  | [] => []
+  | e :: rest => if may_exit X e then [e] else e :: inspected X rest
+  end.
+
+Definition entries_validb (R : rules) (X : cond) (es : list recval) : bool :=
+  forallb (rec_validb R) (inspected X es).
+
